@@ -376,6 +376,33 @@ func (p *pinfo) preserved(text string, sites []site) bool {
 
 // ------------------------------------------------------------------- oracle
 
+// inFlight / watchdog: a transpilation that never returns (non-termination is
+// property C13's business) must stop the run with a diagnosis, not hang it.
+// Resource backstop only, never a verdict.
+var inFlight sync.Map // *flight -> struct{}
+
+type flight struct {
+	src   string
+	since time.Time
+}
+
+const stallLimit = 10 * time.Minute
+
+func watchdog() {
+	for {
+		time.Sleep(5 * time.Second)
+		inFlight.Range(func(k, _ interface{}) bool {
+			f := k.(*flight)
+			if time.Since(f.since) > stallLimit {
+				fmt.Fprintf(os.Stderr, "HARNESS ERROR: Transpile has not returned for %v on source %q; the check cannot decide anything (non-termination belongs to C13)\n", stallLimit, f.src)
+				drive.Cleanup()
+				os.Exit(2)
+			}
+			return true
+		})
+	}
+}
+
 var targets = []drive.Target{drive.Bash, drive.Batch}
 
 func status(r drive.TResult) string {
@@ -391,6 +418,9 @@ func status(r drive.TResult) string {
 // judge compares the variant with the base on both targets. It returns the
 // symptom ("" = the property holds for this variant) and the targets showing it.
 func (p *pinfo) judge(text string) (symptom, tg string, res [2]drive.TResult) {
+	f := &flight{src: text, since: time.Now()}
+	inFlight.Store(f, struct{}{})
+	defer inFlight.Delete(f)
 	syms := [2]string{}
 	for i, t := range targets {
 		res[i] = drive.TranspileSrc(text, t)
@@ -685,6 +715,7 @@ func Run() int {
 	c := &checker{run: r, distinct: findings.NewDistinct(), finds: map[string]*finding{}, outcomes: map[string]int{},
 		perT: map[string]int{}, notPres: map[string]int{}, cells: map[string]int{}}
 	c.deadline = r.Deadline(10*time.Minute, 28*time.Minute)
+	go watchdog()
 
 	all, err := corpus()
 	if err != nil {
@@ -895,12 +926,14 @@ func Run() int {
 				}
 			}
 			small := len(ok) <= 160
+			tiny := len(ok) <= 80
 			for x := 0; x < len(ok); x++ {
 				for y := x + 1; y < len(ok); y++ {
 					a, b := p.sites[ok[x]], p.sites[ok[y]]
 					near := a.pos-b.pos <= 1 && b.pos-a.pos <= 1
 					// same transformation anywhere (small programs); different transformations at the same or neighbouring lexeme
-					if (a.t == b.t && small) || (a.t != b.t && near) {
+					// ... and every pair whatsoever in tiny programs
+					if tiny || (a.t == b.t && small) || (a.t != b.t && near) {
 						items = append(items, item{p: pi, sites: []int{ok[x], ok[y]}, phase: "pair"})
 					}
 				}
@@ -931,7 +964,7 @@ func Run() int {
 	exhaustive := phase1Complete && (!thorough || pairsComplete)
 	r.Set("evaluations", int(c.evals))
 	r.Set("distinct_nontrivial", c.distinct.Len())
-	r.Set("rule", "enumerated: corpus program x layout transformation x site set (each site alone; all sites of one transformation; whole-file styles; thorough: all same-transformation pairs and all neighbouring cross-transformation pairs on the generated+rejected sub-corpus); a variant counts as distinct/non-trivial when its text differs from the base and from every other variant of the same program and the reference lexer confirms that its token sequence equals the base's (modulo duplicated line ends at an existing line break / the final line end)")
+	r.Set("rule", "enumerated: corpus program x layout transformation x site set (each site alone; all sites of one transformation; whole-file styles; thorough: on the generated+rejected sub-corpus all pairs of sites in programs with <= 80 sites, all same-transformation pairs in programs with <= 160 sites, all cross-transformation pairs at the same or neighbouring lexeme everywhere); a variant counts as distinct/non-trivial when its text differs from the base and from every other variant of the same program and the reference lexer confirms that its token sequence equals the base's (modulo duplicated line ends at an existing line break / the final line end)")
 	r.Set("exhaustive", exhaustive)
 	if !exhaustive {
 		r.Set("cap_hit", fmt.Sprintf("internal deadline reached (phase 1 complete: %v, pairs complete: %v)", phase1Complete, pairsComplete))
